@@ -1124,3 +1124,24 @@ def m_record_first_seen_cut(ex, st, args, dty, canon):
 
 def cut_record_first_seen(ex):
     ex.model_patterns.insert(0, (re.compile(r'^StateMachine::<.*>::record_update_first_seen_time$'), m_record_first_seen_cut))
+
+
+def m_puc_cut(ex, st, args, dty, canon):
+    """perform_update_check as an event: arbitrary result; of the context it may change the poll interval
+    (through exchanges) and last_update_check_time (report_check_interval) -- established by C06/C07/C04."""
+    sm = as_ptr(ex, st, args[0], 'perform_update_check self')
+    rty = 'std::result::Result<(update_check::Response, RebootAfterUpdate<IR>), UpdateCheckError>'
+    res = env_event(ex, st, 'perform_update_check', (ex.snapshot(st, args[1]), ex.snapshot(st, args[2])), rty)
+    nm = st.trace[-1].out
+    path = sm_field_path(ex, ['context', 'state', 'server_dictated_poll_interval'])
+    tp = [(k, None) for k in sm.path] + [(k, None) for k in path[:-1]] + [(path[-1], SPI_TY)]
+    ex.store(st, sm.cell, tp, Tree({}, nm + '.spi', SPI_TY))
+    path = sm_field_path(ex, ['context', 'schedule', 'last_update_check_time'])
+    ty = 'std::option::Option<time::PartialComplexTime>'
+    tp = [(k, None) for k in sm.path] + [(k, None) for k in path[:-1]] + [(path[-1], ty)]
+    ex.store(st, sm.cell, tp, Tree({}, nm + '.luct', ty))
+    return fut('ready', res)
+
+
+def cut_perform_update_check(ex):
+    ex.model_patterns.insert(0, (re.compile(r'^StateMachine::<.*>::perform_update_check$'), m_puc_cut))
